@@ -19,19 +19,44 @@ Proof.
   split; [reflexivity|]. split; [reflexivity|]. intros ref' Hne. apply dget_ddel_other. exact Hne.
 Qed.
 
+(* the key of the status cell a put writes to *)
+Definition put_key (c : corr) (m : smsg) : Z :=
+  let '(ref, sseq, total) := sm_sar m in
+  if 1 <? sseq
+  then match dget ref (c_cur c) with
+       | Some k => match dget k (c_stat c) with Some _ => k | None => skey ref (sm_seq m) end
+       | None => skey ref (sm_seq m)
+       end
+  else skey ref (sm_seq m).
+
 Lemma put_store_foot c now m eid :
   (forall key, key <> sm_seq m -> dget key (c_store (put_store c now m eid)) = dget key (c_store c))
   /\ (forall key, key <> sm_seq m -> dget key (c_seg (put_store c now m eid)) = dget key (c_seg c))
-  /\ (forall ref, ref <> fst (fst (sm_sar m)) -> dget ref (c_stat (put_store c now m eid)) = dget ref (c_stat c)).
+  /\ (forall key, key <> put_key c m -> dget key (c_stat (put_store c now m eid)) = dget key (c_stat c))
+  /\ (forall ref, ref <> fst (fst (sm_sar m)) -> dget ref (c_cur (put_store c now m eid)) = dget ref (c_cur c)).
 Proof.
-  unfold put_store. destruct (is_submit m).
+  unfold put_store, put_key. destruct (is_submit m).
   - destruct (sm_sar m) as [[ref sseq] total]. cbn [fst]. destruct (0 <? total).
-    + cbn [with_store with_seg with_stat c_store c_seg c_stat].
-      split; [intros key Hne; apply dget_dset_other; exact Hne|].
-      split; [intros key Hne; apply dget_dset_other; exact Hne|].
-      intros ref' Hne. apply dget_dset_other. exact Hne.
-    + cbn [with_store c_store c_seg c_stat]. split; [intros key Hne; apply dget_dset_other; exact Hne|]. split; reflexivity.
-  - cbn [with_store c_store c_seg c_stat]. split; [intros key Hne; apply dget_dset_other; exact Hne|]. split; reflexivity.
+    + cbn [with_store c_cur c_stat].
+      destruct (1 <? sseq).
+      * destruct (dget ref (c_cur c)) as [k0|].
+        -- destruct (dget k0 (c_stat c)) as [ss|]; cbn [with_store with_seg with_stat with_cur c_store c_seg c_stat c_cur].
+           ++ split; [intros key Hne; apply dget_dset_other; exact Hne|].
+              split; [intros key Hne; apply dget_dset_other; exact Hne|].
+              split; [intros key Hne; apply dget_dset_other; exact Hne|]. reflexivity.
+           ++ split; [intros key Hne; apply dget_dset_other; exact Hne|].
+              split; [intros key Hne; apply dget_dset_other; exact Hne|].
+              split; [intros key Hne; apply dget_dset_other; exact Hne|]. intros ref' Hne. apply dget_dset_other. exact Hne.
+        -- cbn [with_store with_seg with_stat with_cur c_store c_seg c_stat c_cur].
+           split; [intros key Hne; apply dget_dset_other; exact Hne|].
+           split; [intros key Hne; apply dget_dset_other; exact Hne|].
+           split; [intros key Hne; apply dget_dset_other; exact Hne|]. intros ref' Hne. apply dget_dset_other. exact Hne.
+      * cbn [with_store with_seg with_stat with_cur c_store c_seg c_stat c_cur].
+        split; [intros key Hne; apply dget_dset_other; exact Hne|].
+        split; [intros key Hne; apply dget_dset_other; exact Hne|].
+        split; [intros key Hne; apply dget_dset_other; exact Hne|]. intros ref' Hne. apply dget_dset_other. exact Hne.
+    + cbn [with_store c_store c_seg c_stat c_cur]. split; [intros key Hne; apply dget_dset_other; exact Hne|]. repeat split; reflexivity.
+  - cbn [with_store c_store c_seg c_stat c_cur]. split; [intros key Hne; apply dget_dset_other; exact Hne|]. repeat split; reflexivity.
 Qed.
 
 Lemma expired_foot c m :
@@ -95,12 +120,16 @@ Definition footprint (key : Z) (uid : option Z) (stat_ok : Z -> Prop) (s s' : hs
   /\ (forall k', k' <> key -> dget k' (c_seg (h_corr s')) = dget k' (c_seg (h_corr s)))
   /\ (forall ref, stat_ok ref -> dget ref (c_stat (h_corr s')) = dget ref (c_stat (h_corr s)))
   /\ (forall u, uid <> Some u -> dget u (h_rlog s') = dget u (h_rlog s)).
+(* the reference -> key map is written by puts only, at the reference of the message *)
+Definition cur_foot (cur_ok : Z -> Prop) (s s' : hstate) : Prop :=
+  forall ref, cur_ok ref -> dget ref (c_cur (h_corr s')) = dget ref (c_cur (h_corr s)).
 
 Lemma put_footprint s m :
-  footprint (sm_seq m) None (fun ref => ref <> fst (fst (sm_sar m))) s (fst (hstep s (HPut m))).
+  footprint (sm_seq m) None (fun key => key <> put_key (h_corr s) m) s (fst (hstep s (HPut m)))
+  /\ cur_foot (fun ref => ref <> fst (fst (sm_sar m))) s (fst (hstep s (HPut m))).
 Proof.
-  unfold footprint. cbn [hstep fst h_corr h_rlog]. destruct (put_store_foot (h_corr s) 0%Q m (h_next s)) as (F1 & F2 & F3).
-  split; [exact F1|]. split; [exact F2|]. split; [exact F3|]. reflexivity.
+  unfold footprint, cur_foot. cbn [hstep fst h_corr h_rlog]. destruct (put_store_foot (h_corr s) 0%Q m (h_next s)) as (F1 & F2 & F3 & F4).
+  split; [|exact F4]. split; [exact F1|]. split; [exact F2|]. split; [exact F3|]. reflexivity.
 Qed.
 
 Lemma expire_footprint s sq e :
@@ -156,32 +185,39 @@ Lemma QI_frame r log k sq uid s s' q lr :
   QI r log k sq uid s q lr ->
   (forall i, (i < k)%nat -> dget (sq i) (c_store (h_corr s')) = dget (sq i) (c_store (h_corr s))) ->
   (forall i, (i < k)%nat -> dget (sq i) (c_seg (h_corr s')) = dget (sq i) (c_seg (h_corr s))) ->
-  dget r (c_stat (h_corr s')) = dget r (c_stat (h_corr s)) ->
+  dget (K r sq) (c_stat (h_corr s')) = dget (K r sq) (c_stat (h_corr s)) ->
   (forall r', lr = Some r' -> dget (rs_uid r') (h_rlog s') = dget (rs_uid r') (h_rlog s)) ->
+  (q 0%nat <> QNot -> (exists j, (j < k)%nat /\ q j = QNot) -> dget r (c_cur (h_corr s')) = dget r (c_cur (h_corr s))) ->
   NoDup (dkeys (c_seg (h_corr s'))) -> NoDup (dkeys (c_stat (h_corr s'))) -> NoDup (dkeys (c_store (h_corr s'))) ->
   QI r log k sq uid s' q lr.
 Proof.
-  intros (Ha & Hb & Hc & Hl & N1 & N2 & N3 & Hff) F1 F2 F3 F4 M1 M2 M3. unfold QI.
-  split; [intros i Hi; rewrite (F1 i Hi); exact (Ha i Hi)|].
-  split; [intros i Hi; rewrite (F2 i Hi); exact (Hb i Hi)|].
-  split; [rewrite F3; exact Hc|].
-  split.
-  - destruct Hl as (L1 & L2 & L3 & L4 & L5 & L6). unfold lr_okq. repeat split; try assumption.
-    intros r' E. rewrite (F4 r' E). exact (L5 r' E).
-  - repeat split; assumption.
+  intros [(Ha & Hb & Hc & Hl & N1 & N2 & N3 & Hff) Hcur] F1 F2 F3 F4 F5 M1 M2 M3. split.
+  - unfold QI0.
+    split; [intros i Hi; rewrite (F1 i Hi); exact (Ha i Hi)|].
+    split; [intros i Hi; rewrite (F2 i Hi); exact (Hb i Hi)|].
+    split; [rewrite F3; exact Hc|].
+    split.
+    + destruct Hl as (L1 & L2 & L3 & L4 & L5 & L6). unfold lr_okq. repeat split; try assumption.
+      intros r' E. rewrite (F4 r' E). exact (L5 r' E).
+    + repeat split; assumption.
+  - intros H0 Hex. rewrite (F5 H0 Hex). exact (Hcur H0 Hex).
 Qed.
 
 (* ---------- several messages ---------- *)
 Record mdesc := { md_r : Z; md_log : Z; md_k : nat; md_sq : nat -> Z; md_uid : nat -> Z }.
 
+Lemma skey_inj r1 s1 r2 s2 : 0 <= r1 < 65536 -> 0 <= r2 < 65536 -> s1 <> s2 -> skey r1 s1 <> skey r2 s2.
+Proof. unfold skey. lia. Qed.
+
 Section Concurrent.
   Variable n : nat.                       (* the messages are numbered 0 .. n-1 *)
   Variable D : nat -> mdesc.
   Hypothesis D_ok : forall j, (j < n)%nat ->
-    (2 <= md_k (D j))%nat /\ forall a b, (a < md_k (D j))%nat -> (b < md_k (D j))%nat -> md_sq (D j) a = md_sq (D j) b -> a = b.
-  (* distinct segmentation references and distinct sequence numbers among the messages in flight *)
+    (2 <= md_k (D j))%nat /\ 0 <= md_r (D j) < 65536
+    /\ forall a b, (a < md_k (D j))%nat -> (b < md_k (D j))%nat -> md_sq (D j) a = md_sq (D j) b -> a = b.
+  (* distinct sequence numbers among the messages in flight; their segmentation references may coincide *)
   Hypothesis D_sep : forall i j, (i < n)%nat -> (j < n)%nat -> i <> j ->
-    md_r (D i) <> md_r (D j) /\ forall a b, (a < md_k (D i))%nat -> (b < md_k (D j))%nat -> md_sq (D i) a <> md_sq (D j) b.
+    forall a b, (a < md_k (D i))%nat -> (b < md_k (D j))%nat -> md_sq (D i) a <> md_sq (D j) b.
 
   Definition QIj (j : nat) := QI (md_r (D j)) (md_log (D j)) (md_k (D j)) (md_sq (D j)) (md_uid (D j)).
   Definition MI (s : hstate) (Q : nat -> nat -> qphase) (LR : nat -> option resp) : Prop :=
@@ -195,12 +231,18 @@ Section Concurrent.
 
   Definition gconc (e : gev) : hevent :=
     let d := D (fst e) in oconc (md_r d) (md_log d) (md_k d) (md_sq d) (md_uid d) (snd e).
-  (* a response object is a new Python object: its identity differs from that of the responses other messages still hold *)
+  (* message i is in the middle of storing its segments *)
+  Definition storing (Q : nat -> nat -> qphase) (i : nat) : Prop :=
+    Q i 0%nat <> QNot /\ exists a, (a < md_k (D i))%nat /\ Q i a = QNot.
   Definition genabled (Q : nat -> nat -> qphase) (LR : nat -> option resp) (e : gev) : Prop :=
     let j := fst e in
     (j < n)%nat /\ oenabled (md_k (D j)) (md_sq (D j)) (Q j) (snd e)
     /\ match snd e with
+       (* a response object is a new Python object: its identity differs from that of the responses other messages still hold *)
        | OResp _ r' _ => forall i, (i < n)%nat -> i <> j -> forall r'', LR i = Some r'' -> rs_uid r'' <> rs_uid r'
+       (* the sender stores the segments of one message before it turns to the next: no other message with the same reference
+          is in the middle of storing its segments *)
+       | OPut _ => forall i, (i < n)%nat -> i <> j -> md_r (D i) = md_r (D j) -> ~ storing Q i
        | _ => True
        end.
   Definition gafter (Q : nat -> nat -> qphase) (LR : nat -> option resp) (e : gev) :=
@@ -219,25 +261,42 @@ Section Concurrent.
     let j := fst e in
     exists i, (i < md_k (D j))%nat /\
       footprint (md_sq (D j) i) (match snd e with OResp _ r' _ => Some (rs_uid r') | _ => None end)
-                (fun ref => ref <> md_r (D j)) s (fst (hstep s (gconc e))).
+                (fun key => key <> K (md_r (D j)) (md_sq (D j))) s (fst (hstep s (gconc e)))
+      /\ cur_foot (fun ref => match snd e with OPut _ => ref <> md_r (D j) | _ => True end) s (fst (hstep s (gconc e))).
   Proof.
     intros HM (Hj & Hen & _). destruct e as [j g]. cbn [fst snd] in *. specialize (HM j Hj).
     unfold gconc. cbn [fst snd]. destruct g as [i|i r' mid|i]; cbn [oenabled] in Hen; cbn [oconc].
-    - destruct Hen as (Hi & _). exists i. split; [exact Hi|].
-      pose proof (put_footprint s (oseg (md_r (D j)) (md_log (D j)) (md_k (D j)) (md_sq (D j)) (md_uid (D j)) i)) as F.
-      unfold oseg in F at 1 2. cbn [sm_seq sm_sar fst] in F. exact F.
+    - destruct Hen as (Hi & Hp & Hord). exists i. split; [exact Hi|].
+      pose proof (put_footprint s (oseg (md_r (D j)) (md_log (D j)) (md_k (D j)) (md_sq (D j)) (md_uid (D j)) i)) as [F C].
+      unfold oseg in F at 1, C at 1. cbn [sm_seq sm_sar fst] in F, C. split; [|exact C].
+      (* the cell written is the message's own *)
+      assert (put_key (h_corr s) (oseg (md_r (D j)) (md_log (D j)) (md_k (D j)) (md_sq (D j)) (md_uid (D j)) i) = K (md_r (D j)) (md_sq (D j))) as Ek.
+      { unfold put_key, oseg. cbn [sm_sar sm_seq]. destruct (Nat.eq_dec i 0) as [->|N0].
+        - change (1 <? Z.of_nat 0 + 1) with false. cbv iota. reflexivity.
+        - replace (1 <? Z.of_nat i + 1) with true by (symmetry; apply Z.ltb_lt; lia).
+          destruct HM as [(_ & _ & Hc & _) Hcur].
+          rewrite (Hcur (Hord N0) (ex_intro _ i (conj Hi Hp))).
+          assert (forallb (fun a => is_qnot (Q j a)) (oidx (md_k (D j))) = false) as Fn.
+          { destruct (D_ok j Hj) as (Hk2 & _). apply (oforallb_false _ Hk2 _ 0%nat); [lia|]. specialize (Hord N0). destruct (Q j 0%nat); try reflexivity. contradiction. }
+          assert (all_processed (md_k (D j)) (Q j) = false) as Fp by (destruct (D_ok j Hj) as (Hk2 & _); apply (oforallb_false _ Hk2 _ i Hi); rewrite Hp; reflexivity).
+          rewrite Fn, Fp in Hc. cbn [andb] in Hc. destruct Hc as (cell & -> & _). reflexivity. }
+      rewrite Ek in F. exact F.
     - destruct Hen as (Hi & Hp & Hsq & _). exists i. split; [exact Hi|].
       pose proof (response_footprint s r' mid) as (F1 & F2 & F3 & F4). rewrite Hsq in F1, F2, F3.
-      destruct HM as (_ & Hb & _). specialize (Hb i Hi). rewrite Hp in Hb.
-      cbn [hstep]. split; [exact F1|]. split; [exact F2|]. split; [|exact F4].
-      intros ref Hne. apply F3. intros rf ss E. rewrite Hb in E. injection E as <- _. congruence.
+      destruct HM as [(_ & Hb & _) _]. specialize (Hb i Hi). rewrite Hp in Hb.
+      cbn [hstep]. split.
+      + split; [exact F1|]. split; [exact F2|]. split; [|exact F4].
+        intros ref Hne. apply F3. intros rf ss E. rewrite Hb in E. injection E as <- _. congruence.
+      + intros ref _. rewrite response_cur. reflexivity.
     - destruct Hen as (Hi & Hp). exists i. split; [exact Hi|].
-      destruct HM as (Ha & Hb & _). pose proof (Ha i Hi) as Hai. rewrite Hp in Hai. destruct Hai as (e & He & Hm).
+      destruct HM as [(Ha & Hb & _) _]. pose proof (Ha i Hi) as Hai. rewrite Hp in Hai. destruct Hai as (e & He & Hm).
       specialize (Hb i Hi). rewrite Hp in Hb.
       pose proof (expire_footprint s (md_sq (D j) i) e He) as F.
       assert (sm_seq (e_msg e) = md_sq (D j) i) as Es by (rewrite Hm; reflexivity). specialize (F Es).
-      destruct F as (F1 & F2 & F3 & F4). split; [exact F1|]. split; [exact F2|]. split; [|exact F4].
-      intros ref Hne. apply F3. intros rf ss E. rewrite Hb in E. injection E as <- _. congruence.
+      destruct F as (F1 & F2 & F3 & F4). split.
+      + split; [exact F1|]. split; [exact F2|]. split; [|exact F4].
+        intros ref Hne. apply F3. intros rf ss E. rewrite Hb in E. injection E as <- _. congruence.
+      + intros ref _. cbn [hstep]. rewrite expire_cur. reflexivity.
   Qed.
 
   (* one event of one message: that message moves as it would alone, all the others keep their invariant *)
@@ -246,24 +305,26 @@ Section Concurrent.
     exists s', hstep s (gconc e) = (s', gexpected Q LR e) /\ MI s' (fst (gafter Q LR e)) (snd (gafter Q LR e)).
   Proof.
     intros HM Hen. pose proof (event_footprint s Q LR e HM Hen) as Hfoot.
-    destruct Hen as (Hj & Hen & Hfresh). destruct e as [j g]. cbn [fst snd] in *.
-    destruct (D_ok j Hj) as [Hk Hinj].
+    destruct Hen as (Hj & Hen & Hextra). destruct e as [j g]. cbn [fst snd] in *.
+    destruct (D_ok j Hj) as (Hk & Hrj & Hinj).
     destruct (o_step (md_r (D j)) (md_log (D j)) (md_k (D j)) (md_sq (D j)) (md_uid (D j)) Hk Hinj s (Q j) (LR j) g (HM j Hj) Hen)
       as (s' & Hs & HQ').
     exists s'. split; [exact Hs|].
     unfold gafter. cbn [fst snd]. intros i Hi. destruct (Nat.eq_dec i j) as [->|Hne].
     - unfold QIj. rewrite !upd_same. exact HQ'.
     - unfold QIj. rewrite !upd_other by exact Hne.
-      destruct Hfoot as (a & Ha & F1 & F2 & F3 & F4). unfold gconc in F1, F2, F3, F4. cbn [fst snd] in F1, F2, F3, F4.
-      rewrite Hs in F1, F2, F3, F4. cbn [fst] in F1, F2, F3, F4.
-      destruct (D_sep i j Hi Hj Hne) as [Hr Hsq].
-      destruct HQ' as (_ & _ & _ & _ & N1 & N2 & N3 & _).
+      destruct Hfoot as (a & Ha & (F1 & F2 & F3 & F4) & F5). unfold gconc in F1, F2, F3, F4, F5. cbn [fst snd] in F1, F2, F3, F4, F5.
+      rewrite Hs in F1, F2, F3, F4, F5. cbn [fst] in F1, F2, F3, F4, F5.
+      pose proof (D_sep i j Hi Hj Hne) as Hsq. destruct (D_ok i Hi) as (Hki & Hri & _).
+      destruct HQ' as [(_ & _ & _ & _ & N1 & N2 & N3 & _) _].
       apply (QI_frame _ _ _ _ _ s s' _ _ (HM i Hi)).
       + intros b Hb. apply F1. apply Hsq; assumption.
       + intros b Hb. apply F2. apply Hsq; assumption.
-      + apply F3. exact Hr.
+      + apply F3. unfold K. apply skey_inj; [exact Hri|exact Hrj|]. apply Hsq; lia.
       + intros r'' E. apply F4. destruct g as [x|x r' mid|x]; try discriminate.
-        intros E2. injection E2 as E2. exact (Hfresh i Hi Hne r'' E (eq_sym E2)).
+        intros E2. injection E2 as E2. exact (Hextra i Hi Hne r'' E (eq_sym E2)).
+      + intros H0 Hex. apply F5. destruct g as [x|x r' mid|x]; try exact I.
+        intros Er. apply (Hextra i Hi Hne Er). split; assumption.
       + exact N1.
       + exact N2.
       + exact N3.
@@ -312,7 +373,7 @@ Section Concurrent.
   Proof.
     intros Hv Hj. rewrite (g_run gs hinit _ _ MI_init Hv).
     destruct (projection j gs _ _ Hv) as [Pv Pe]. split; [exact Pe|]. split; [exact Pv|].
-    rewrite Pe. destruct (D_ok j Hj) as [Hk Hinj].
+    rewrite Pe. destruct (D_ok j Hj) as (Hk & _ & Hinj).
     rewrite <- (o_run (md_r (D j)) (md_log (D j)) (md_k (D j)) (md_sq (D j)) (md_uid (D j)) Hk Hinj (proj j gs) hinit _ _
                       (QI_init _ _ _ _ _) Pv).
     exact (outcome_exactly_once (md_r (D j)) (md_log (D j)) (md_k (D j)) (md_sq (D j)) (md_uid (D j)) Hk Hinj (proj j gs) Pv).
